@@ -91,9 +91,10 @@ def nodeOk (k : RecKind) (ch : List Rec) : Bool :=
         (s == .pass && sts.any (· == .pass)) || (s == .fail && sts.any (· == .fail)) ||
         (s == .skip && !(sts.all (· == .pass)))
   | .guardClauseBlockCheck s =>
-    -- children that are not value checks are records of filters (a filter applied to a scalar
-    -- after `[*]` is evaluated without a `Filter` wrapper): they explain the selection only
+    -- besides `Filter` records (they explain the selection only) the children of an access clause are
+    -- value checks, one per compared value, and the clause status is their `all` / `some` aggregation
     let vals := (ch.filter isValueCheck).map Rec.status
+    lines.all isValueCheck &&
     (if vals.isEmpty then true
      else s == clauseStatus true (vals.map (· == .pass)) || s == clauseStatus false (vals.map (· == .pass)))
   | .clauseValueCheck c =>
